@@ -230,6 +230,10 @@ Definition Random_between_stmt : Prop :=
 Definition Random_between_2exp_stmt : Prop :=
   forall orc, oracle_ok orc -> forall fuel m MM i r j, 0 <= m < MM -> MM < two64 ->
     random_between_2exp orc fuel m MM i = Some (r, j) -> 2 ^ m <= r < 2 ^ MM.
+Definition Random_word_stmt : Prop :=
+  forall orc, oracle_ok orc -> forall ap i, in_range ap (2 ^ 64) (fst (random_word orc ap i)).
+Lemma random_word_thm : Random_word_stmt.
+Proof. intros orc H ap i. apply random_word_range; assumption. Qed.
 Definition Nonzerorandom_stmt : Prop :=
   forall orc, oracle_ok orc -> forall fuel ap i r j,
     (forall n, 0 <= n -> nonzerorandom_2exp orc fuel ap n i = Some (r, j) -> r <> 0 /\ in_range ap (2 ^ n) r) /\
